@@ -816,16 +816,23 @@ fn run_c08(args: &Args, corr: &mut Corr, rep: &mut Report) {
                 }
             }
         }
-        let big_ns: &[usize] = if q <= 5 { &[(1 << 20) - 1, 1 << 20, (1 << 20) + 1] } else if thorough { &[1 << 20] } else { &[] };
-        for &n in big_ns { for &kind in &[0u32, 1] { cases.push(OsCase { q, lgwin: if q <= 1 { 18 } else { 22 }, n, kind, gen: None, dense: false }); } }
-        if thorough && q <= 2 { cases.push(OsCase { q, lgwin: 22, n: (1 << 24) + 1, kind: 0, gen: None, dense: false }); }
+        // 2^20: quick = quality <= 5 x 2 content classes; thorough = every quality, all content classes
+        // (quality 10/11: one length, 2 classes — a megabyte of incompressible data takes seconds there)
+        let big_ns: &[usize] = if q <= 5 || (thorough && q <= 9) { &[(1 << 20) - 1, 1 << 20, (1 << 20) + 1] } else if thorough { &[1 << 20] } else { &[] };
+        let big_kinds: &[u32] = if thorough && q <= 9 { &[0, 1, 2, 3, 4] } else { &[0, 1] };
+        for &n in big_ns { for &kind in big_kinds { for &lgwin in (if thorough && q <= 9 { &[18, 22][..] } else if q <= 1 { &[18][..] } else { &[22][..] }) { cases.push(OsCase { q, lgwin, n, kind, gen: None, dense: false }); } } }
+        // 2^24 (the chunking boundary of the stored stream), thorough only
+        if thorough && (q <= 2 || q == 5) {
+            for &n in &[(1usize << 24) - 1, 1 << 24, (1 << 24) + 1] { for &kind in &[0u32, 1] { cases.push(OsCase { q, lgwin: 22, n, kind, gen: None, dense: n == (1 << 24) + 1 && kind == 0 }); } }
+        }
     }
     // every buffer size from n to n + 12 (between "the input fits" and the bound) on incompressible inputs
     // around the 5- and 6-nibble thresholds of the stored stream
     for &q in &[0, 1, 2, 3, 5, 9, 10, 11] {
         for &n in &[(1usize << 16) - 1, (1 << 16) + 1] { cases.push(OsCase { q, lgwin: 18, n, kind: 0, gen: None, dense: true }); }
     }
-    for &q in &[0, 2, 5] {
+    let dense_q: &[i32] = if thorough { &[0, 1, 2, 3, 4, 5, 7, 9] } else { &[0, 2, 5] };
+    for &q in dense_q {
         for &n in &[(1usize << 20) - 1, 1 << 20, (1 << 20) + 1, (1 << 20) + 2] { cases.push(OsCase { q, lgwin: if q == 0 { 18 } else { 22 }, n, kind: 0, gen: None, dense: true }); }
     }
     let ncases = cases.len();
